@@ -124,7 +124,9 @@ def channelAgrees (d : Nat) (p : Policy) (msgs : List Msg) : Bool :=
   let key : PullRes → Nat × Nat × UInt64 := fun
     | .ok (c, l) => (c.length, if l then 1 else 0, fnv c)
     | .error _ => (0, 2, 0)
-  viaChannel.map key == direct.map key
+  -- and the arms of `Session::pull` as extracted from the current source (`C09.pull_source_form`)
+  let arms := pullAllA Gen.svsPull (msgs.length + 2) { rx := msgs }
+  viaChannel.map key == direct.map key && arms.map key == direct.map key
 
 def raw (idx kind comp chunk depth speed stream evs end_ script : String) : String :=
   let F := Gen.svsFacts
